@@ -21,6 +21,7 @@ import json
 import math
 import os
 import random
+import re
 import sys
 from fractions import Fraction
 
@@ -38,11 +39,12 @@ CONSTANTS
   Rule = "{rule}"
   HardMode = "{hm}"
 {invs}
+PROPERTY LabelFixed
 CHECK_DEADLOCK FALSE
 """
 K_INV_W = ["TypeOK", "RowStochastic"]
 K_INV_D = ["Factorised", "FoldOpsAgree"]  # definitional cross-checks, independent of the rule: intended run only
-K_INV_S = ["NeverLeaves", "StepInSupport", "RecordCoherent", "DrawCount"]
+K_INV_S = ["NeverLeaves", "StepInSupport", "RecordCoherent", "DrawCount", "ProposalUsesLabel", "SweepCount"]
 
 TCFG = """INIT Init
 NEXT Next
@@ -78,8 +80,9 @@ def alphabet(sizes):
 def tla_case(c):
     al = "<<" + ",".join("<<%d,%d>>" % zw for zw in c["alpha"]) + ">>"
     ts = lambda L: "{" + ",".join("<<" + ",".join(map(str, t)) + ">>" for t in L) + "}"  # noqa: E731
-    return "<<%d, %d, %s, %s, %s, {%s}, %d>>" % (
-        c["M"], c["d"], al, ts(c["tabs"] or []), ts(c["steptabs"]), ",".join(map(str, c["bs"])), c["maxdraws"])
+    return "<<%d, %d, %s, %s, %s, {%s}, %d, <<%s>>, %d>>" % (
+        c["M"], c["d"], al, ts(c["tabs"] or []), ts(c["steptabs"]), ",".join(map(str, c["bs"])), c["maxdraws"],
+        ",".join(map(str, c.get("gains", [1]))), c.get("nsweeps", 1))
 
 
 def kernel_cases(tier, seed):
@@ -99,7 +102,8 @@ def kernel_cases(tier, seed):
         t16 = [flat16] + [rt(16) for _ in range(8)]
         S2 = alphabet({0: 1, 1: 2, 6: 1})
         S3 = alphabet({0: 2, 3: 1})
-        return [
+        T8 = (0, 2, 4, 2, 0, 2, 4, 0)
+        return MULTI(T8, quick=True) + [
             dict(M=4, d=1, alpha=A4, tabs=None, steptabs=st4, bs=[1, 2], maxdraws=2),
             dict(M=8, d=1, alpha=A8, tabs=t8, steptabs=[t8[1]], bs=[1, 2], maxdraws=2),
             dict(M=4, d=2, alpha=S2, tabs=t16, steptabs=[t16[1]], bs=[1], maxdraws=1),
@@ -111,7 +115,7 @@ def kernel_cases(tier, seed):
     S2 = alphabet({0: 1, 1: 2, 3: 1, 8: 1})
     S8 = alphabet({0: 1, 1: 2, 5: 1, 16: 1})
     deep4 = fixed4
-    return [
+    return MULTI((0, 2, 4, 2, 0, 2, 4, 0), quick=False) + [
         dict(M=4, d=1, alpha=A4, tabs=None, steptabs=all4, bs=[1, 2], maxdraws=2),
         dict(M=4, d=1, alpha=A4, tabs=deep4, steptabs=deep4, bs=[1, 2], maxdraws=3),
         dict(M=8, d=1, alpha=A8full, tabs=t8, steptabs=t8[1:3], bs=[1, 2], maxdraws=2),
@@ -119,6 +123,17 @@ def kernel_cases(tier, seed):
         dict(M=4, d=2, alpha=S2, tabs=t16[1:2], steptabs=t16[1:2], bs=[1], maxdraws=2),
         dict(M=8, d=2, alpha=S8, tabs=t64, steptabs=[], bs=[2], maxdraws=1),
     ]
+
+
+def MULTI(T8, quick):
+    """K = 2 proposal modes (1 and 2 cells per unit innovation, means 1/4 and 3/4), two and three consecutive sweeps of
+    one run() call: walkers cross from one mode's half of the cube to the other's while their label stays."""
+    if quick:
+        return [dict(M=8, d=1, alpha=alphabet({0: 1, 1: 2, 2: 1}), tabs=[T8], steptabs=[T8], bs=[1], maxdraws=1, gains=[1, 2], nsweeps=2),
+                dict(M=4, d=1, alpha=alphabet({0: 1, 1: 1}), tabs=[(0, 2, 4, 0)], steptabs=[(0, 2, 4, 0)], bs=[2], maxdraws=1, gains=[1, 2], nsweeps=3)]
+    return [dict(M=8, d=1, alpha=alphabet({0: 1, 1: 2, 2: 1, 5: 1}), tabs=[T8], steptabs=[T8], bs=[1, 2], maxdraws=1, gains=[1, 2], nsweeps=2),
+            dict(M=8, d=1, alpha=alphabet({0: 1, 1: 2, 2: 1}), tabs=[T8], steptabs=[T8], bs=[1], maxdraws=1, gains=[1, 2], nsweeps=3),
+            dict(M=4, d=2, alpha=alphabet({0: 1, 1: 1}), tabs=[(0, 2, 4, 0) * 4], steptabs=[(0, 2, 4, 0) * 4], bs=[2], maxdraws=1, gains=[2, 1], nsweeps=1)]
 
 
 def run_kernel(cases, rule, hm, invs, dump=True, steps=True, workers=6):
@@ -145,24 +160,36 @@ class SweepReplayer:
         self.calls = 0
         self.masks = set()
 
-    def mode_stats(self, M, d):
-        if (M, d) not in self._ms:
+    def mode_stats(self, M, d, gains=(1,)):
+        """K = len(gains) proposal modes: mode c has scale matrix (g_c/M)^2 I (exact Cholesky factor g_c/M I) and, for
+        K = 2, means 1/4 and 3/4 on every coordinate (RWM ignores the means; a kernel that re-derives the label of a
+        walker from its position would not)."""
+        key = (M, d, tuple(gains))
+        if key not in self._ms:
             np = self.np
-            ms = self.MS(np.full((1, d), 0.5), (np.eye(d) / (M * M)).reshape(1, d, d), np.array([2.0]))
-            if not np.array_equal(ms.chol_covariances[0], np.eye(d) / M):
-                # the factor the kernel draws its noise with is not a factor of the mode's scale matrix (which the
-                # Student-t correction uses through inv_covariances): not a machinery problem but a kernel inconsistency
-                raise ModeFactorMismatch(f"ModeStatistics(cov=I/{M}^2).chol_covariances = {ms.chol_covariances[0].tolist()} is not I/{M}")
-            self._ms[(M, d)] = ms
-        return self._ms[(M, d)]
+            K = len(gains)
+            means = np.full((1, d), 0.5) if K == 1 else np.array([[(2 * c + 1) / (2.0 * K)] * d for c in range(K)])
+            covs = np.array([np.eye(d) * (g * g) / (M * M) for g in gains])
+            ms = self.MS(means, covs, np.full(K, 2.0))
+            for c, g in enumerate(gains):
+                if not np.array_equal(ms.chol_covariances[c], np.eye(d) * g / M):
+                    # the factor the kernel draws its noise with is not a factor of the mode's scale matrix (which the
+                    # Student-t correction uses through inv_covariances): not a machinery problem but a kernel inconsistency
+                    raise ModeFactorMismatch(f"ModeStatistics(cov=({g}/{M})^2 I).chol_covariances = {ms.chol_covariances[c].tolist()} is not {g}/{M} I")
+            self._ms[key] = ms
+        return self._ms[key]
 
     def sweep(self, case, kinds, e, pis, b, trans, entry=False):
-        """trans: list of dict(u, zs, rc, fol, ok, acc, rec).  Returns None if the code reproduced the spec's
-        successor for every walker, else a description of the first difference.  entry=True: the sweep is made
-        through the public entry point tempest.mcmc.parallel_mcmc(sample="rwm") instead of the runner class (the
-        initial step size, which the entry point does not expose, is pinned on the class for the call)."""
+        """trans: list of walkers, each dict(lab, sweeps=[dict(u, zs, rc, fol, ok, acc, rec), ...]) with the same number
+        of sweeps.  Returns None if the code reproduced the specification's behaviour (every sweep's proposals, the
+        final records, unchanged labels) for every walker, else a description of the first difference.
+        entry=True: through the public entry point tempest.mcmc.parallel_mcmc(sample="rwm") instead of the runner class
+        (the initial step size, which the entry point does not expose, is pinned on the class for the call).
+        With more than one sweep the step-size adaptation between sweeps is pinned to a no-op (_adapt_sigma)."""
         np = self.np
         M, d = case["M"], case["d"]
+        gains = case.get("gains", [1])
+        ns = len(trans[0]["sweeps"])
         n = len(trans)
         den = 2.0 * M
         per = [i for i in range(d) if kinds[i] == "periodic"] or None
@@ -175,6 +202,7 @@ class SweepReplayer:
             return k
 
         flags = {"outside": 0, "calls": 0}
+        batches = []
 
         def blob_of(ix):
             return (float(ix + 1), 1000.0 + ix + 1)
@@ -182,6 +210,7 @@ class SweepReplayer:
         def ll(xb):
             xb = np.asarray(xb, dtype=float)
             flags["calls"] += 1
+            batches.append(xb.copy())
             out = np.zeros(len(xb))
             bl = np.full((len(xb), 2), -1.0)
             for i, row in enumerate(xb):
@@ -194,22 +223,27 @@ class SweepReplayer:
                     flags["outside"] += 1
             return out, bl
 
-        u0 = np.array([[c / den for c in t["u"]] for t in trans])
-        ix0 = [idx_of(t["u"]) for t in trans]
+        u0 = np.array([[c / den for c in t["sweeps"][0]["u"]] for t in trans])
+        ix0 = [idx_of(t["sweeps"][0]["u"]) for t in trans]
         l0 = np.array([e[i] * LN2 for i in ix0])
         b0 = np.array([blob_of(i) for i in ix0])
-        zq = [np.array(z, dtype=float) for t in trans for z in t["zs"]]
-        rs = []
-        for t, i0 in zip(trans, ix0):
-            if t["rc"] == "zero":
-                rs.append(0.0)
-            elif t["rc"] == "top":
-                rs.append(TOP)
-            elif not t["ok"]:
-                rs.append(0.25)
-            else:
-                a = min(1.0, pis[idx_of(t["fol"])] / pis[i0])
-                rs.append(a / 2 if t["rc"] == "low" else (1.0 + a) / 2)
+        labels = np.array([t["lab"] - 1 for t in trans], dtype=int)
+        zq = [np.array(z, dtype=float) for k in range(ns) for t in trans for z in t["sweeps"][k]["zs"]]
+        rq = []
+        for k in range(ns):
+            rs = []
+            for t in trans:
+                sp = t["sweeps"][k]
+                if sp["rc"] == "zero":
+                    rs.append(0.0)
+                elif sp["rc"] == "top":
+                    rs.append(TOP)
+                elif not sp["ok"]:
+                    rs.append(0.25)
+                else:
+                    a = min(1.0, pis[idx_of(sp["fol"])] / pis[idx_of(sp["u"])])
+                    rs.append(a / 2 if sp["rc"] == "low" else (1.0 + a) / 2)
+            rq.append(np.array(rs))
         pos = {"z": 0, "r": 0}
 
         def randn(*shape):
@@ -221,24 +255,29 @@ class SweepReplayer:
             return zq[pos["z"] - 1].copy()
 
         def rand(*shape):
-            if shape != (n,) or pos["r"]:
+            if shape != (n,) or pos["r"] >= ns:
                 raise RuntimeError(f"rand called with shape {shape} (call {pos['r'] + 1})")
             pos["r"] += 1
-            return np.array(rs)
+            return rq[pos["r"] - 1].copy()
 
+        ms = self.mode_stats(M, d, gains)
+        K = len(gains)
         o_randn, o_rand = np.random.randn, np.random.rand
         o_init = self.mcmc.RWMRunner._initialize_sigmas
         self.calls += 1
+        runner = None
         try:
             if entry:
                 self.mcmc.RWMRunner._initialize_sigmas = lambda r_: np.ones(r_.n_clusters)
                 np.random.randn, np.random.rand = randn, rand
-                out = self.mcmc.parallel_mcmc(u0, u0.copy(), l0, b0, np.zeros(n, dtype=int), b / 2.0, self.mode_stats(M, d), ll, lambda v: v,
-                                              progress_bar=None, n_steps=1.0 / d, n_max=1.0 / d, sample="rwm", periodic=per, reflective=ref, verbose=False)
+                out = self.mcmc.parallel_mcmc(u0, u0.copy(), l0, b0, labels.copy(), b / 2.0, ms, ll, lambda v: v,
+                                              progress_bar=None, n_steps=float(ns) / d, n_max=float(ns) / d, sample="rwm", periodic=per, reflective=ref, verbose=False)
             else:
-                runner = self.mcmc.RWMRunner(u0, u0.copy(), l0, b0, np.zeros(n, dtype=int), b / 2.0, self.mode_stats(M, d), ll,
-                                             lambda v: v, None, 1.0 / d, 1.0 / d, per, ref, False)
+                runner = self.mcmc.RWMRunner(u0, u0.copy(), l0, b0, labels.copy(), b / 2.0, ms, ll,
+                                             lambda v: v, None, float(ns) / d, float(ns) / d, per, ref, False)
                 runner.sigmas[:] = 1.0
+                if ns > 1:
+                    runner._adapt_sigma = lambda c, a: None
                 np.random.randn, np.random.rand = randn, rand
                 out = runner.run()
         except Exhausted:
@@ -248,24 +287,60 @@ class SweepReplayer:
             self.mcmc.RWMRunner._initialize_sigmas = o_init
         if pos["z"] != len(zq):
             return f"the code consumed {pos['z']} innovation vectors, the specification's behaviour has {len(zq)}"
-        if pos["r"] != 1:
-            return "rand(n_walkers) not called exactly once"
+        if pos["r"] != ns:
+            return f"rand(n_walkers) called {pos['r']} times in {ns} sweeps"
         if flags["outside"]:
             return "the likelihood was evaluated at a point that is not a lattice point of the cube"
-        if out[6] != 1 or out[7] != n or flags["calls"] != 1:
-            return f"iterations={out[6]} n_calls={out[7]} likelihood calls={flags['calls']} (want 1, {n}, 1)"
-        ixe = [idx_of(t["rec"][0]) for t in trans]
-        for t, ix in zip(trans, ixe):
-            if t["rec"][1] != e[ix] or t["rec"][2] != ix + 1:
+        if out[6] != ns or out[7] != n * ns or flags["calls"] != ns:
+            return f"iterations={out[6]} n_calls={out[7]} likelihood calls={flags['calls']} (want {ns}, {n * ns}, {ns})"
+        if runner is not None and not np.array_equal(runner.assignments, labels):
+            return f"cluster labels changed during run(): {labels.tolist()} -> {runner.assignments.tolist()}"
+        # every sweep's proposal batch: the folded proposal made with the mode of the walker's FIXED label
+        # (an out-of-cube proposal is not evaluated: the walker's current point stands in for it)
+        for k in range(ns):
+            want = np.array([[c / den for c in (t["sweeps"][k]["fol"] if t["sweeps"][k]["ok"] else t["sweeps"][k]["u"])] for t in trans])
+            if batches[k].shape != want.shape or not np.array_equal(batches[k], want):
+                return (f"sweep {k + 1}: proposals evaluated {batches[k].tolist()} ; specification (labels {(labels + 1).tolist()}, "
+                        f"cells per unit innovation {list(gains)}) {want.tolist()}")
+        last = [t["sweeps"][-1] for t in trans]
+        ixe = [idx_of(sp["rec"][0]) for sp in last]
+        for sp, ix in zip(last, ixe):
+            if sp["rec"][1] != e[ix] or sp["rec"][2] != ix + 1:
                 raise RuntimeError("spec record incoherent")  # guarded by RecordCoherent
-        eu = np.array([[c / den for c in t["rec"][0]] for t in trans])
+        eu = np.array([[c / den for c in sp["rec"][0]] for sp in last])
         el = np.array([e[i] * LN2 for i in ixe])
         eb = np.array([blob_of(i) for i in ixe])
         for name, got, want in (("u", out[0], eu), ("x", out[1], eu), ("logl", out[2], el), ("blobs", out[3], eb)):
             if got.shape != want.shape or not np.array_equal(got, want):
-                return f"post-sweep {name} = {got.tolist()} ; specification's successor {want.tolist()}"
-        self.masks.add(tuple(bool(t["acc"]) for t in trans) if n == 3 else None)
+                return f"post-run {name} = {got.tolist()} ; specification's successor {want.tolist()}"
+        if ns == 1:
+            self.masks.add(tuple(bool(sp["acc"]) for sp in last) if n == 3 else None)
         return None
+
+
+_VAR = re.compile(r"^/\\ (\w+) = (.*)$")
+_BOOL = re.compile(r"\b(TRUE|FALSE)\b")
+
+
+def _parse_block(lines):
+    """like fastdump._parse_block, but booleans may also occur inside sequences"""
+    st, cur, buf = {}, None, []
+
+    def val(txt):
+        txt = _BOOL.sub(lambda m: m.group(1).lower(), txt.strip())
+        return json.loads(txt.replace("<<", "[").replace(">>", "]"))
+
+    for ln in lines:
+        m = _VAR.match(ln)
+        if m:
+            if cur is not None:
+                st[cur] = val(" ".join(buf))
+            cur, buf = m.group(1), [m.group(2)]
+        elif cur is not None and ln.strip():
+            buf.append(ln.strip())
+    if cur is not None:
+        st[cur] = val(" ".join(buf))
+    return st
 
 
 def iter_states(path, wanted):
@@ -276,7 +351,7 @@ def iter_states(path, wanted):
         for ln in f:
             if ln.startswith("State ") and ln.rstrip().endswith(":"):
                 if block and hit:
-                    yield fastdump._parse_block(block)
+                    yield _parse_block(block)
                 block, hit = [], False
                 continue
             ln = ln.rstrip("\n")
@@ -285,24 +360,28 @@ def iter_states(path, wanted):
                 if not hit and ln.startswith(marks):
                     hit = True
     if block and hit:
-        yield fastdump._parse_block(block)
+        yield _parse_block(block)
 
 
-def load_kernel_dump(res):
-    """-> (mats, trans): mats[(ci,kinds,e,b)] = (pis, [(den, nums)]); trans = list of transition dicts"""
+def _sweep_of(u, zs, rc, fol, ok, acc, rec):
+    return dict(u=tuple(u), zs=tuple(tuple(z) for z in zs), rc=rc, fol=tuple(fol), ok=ok, acc=acc, rec=(tuple(rec[0]), rec[1], rec[2]))
+
+
+def load_kernel_dump(res, cases):
+    """-> (mats, trans): mats[(ci,kinds,e,b,lab)] = (pis, [(den, nums)]); trans = complete behaviours (all sweeps of the
+    run() call) as dict(ci, kinds, e, b, pis, lab, sweeps=[...]) plus the fields of the LAST sweep at top level"""
     mats, trans = {}, []
     for st in iter_states(res.dump_path, ("weights", "done")):
         if st["pc"] == "weights":
-            mats[(st["ci"], tuple(st["kinds"]), tuple(st["e"]), st["b"])] = (st["pis"], [(r[0], r[1]) for r in st["mat"]])
-        else:
-            trans.append(dict(ci=st["ci"], kinds=tuple(st["kinds"]), e=tuple(st["e"]), b=st["b"], pis=st["pis"], u=tuple(st["u"]),
-                              zs=tuple(tuple(z) for z in st["zs"]), rc=st["rc"], fol=tuple(st["fol"]), ok=st["ok"], acc=st["acc"],
-                              rec=(tuple(st["rec"][0]), st["rec"][1], st["rec"][2])))
+            mats[(st["ci"], tuple(st["kinds"]), tuple(st["e"]), st["b"], st["lab"])] = (st["pis"], [(r[0], r[1]) for r in st["mat"]])
+        elif st["sw"] == cases[st["ci"] - 1].get("nsweeps", 1):
+            sweeps = [_sweep_of(*h) for h in st["hist"]] + [_sweep_of(st["u"], st["zs"], st["rc"], st["fol"], st["ok"], st["acc"], st["rec"])]
+            trans.append(dict(sweeps[-1], ci=st["ci"], kinds=tuple(st["kinds"]), e=tuple(st["e"]), b=st["b"], pis=st["pis"], lab=st["lab"], sweeps=sweeps))
     return mats, trans
 
 
 def tkey(t):
-    return (t["ci"], t["kinds"], t["e"], t["b"], t["u"], t["zs"], t["rc"])
+    return (t["ci"], t["kinds"], t["e"], t["b"], t["lab"], tuple((sp["u"], sp["zs"], sp["rc"]) for sp in t["sweeps"]))
 
 
 def path_weight_check(cases, rule, mats, trans):
@@ -312,8 +391,10 @@ def path_weight_check(cases, rule, mats, trans):
     acc = {}
     for t in trans:
         c = cases[t["ci"] - 1]
+        if c.get("nsweeps", 1) != 1:
+            continue  # multi-sweep behaviours are compositions of single sweeps of the same matrix
         if len(t["zs"]) != 1:  # code-shaped rule: the earlier draws of a redraw sequence landed outside
-            row = acc.setdefault((t["ci"], t["kinds"], t["e"], t["b"], t["u"]), {"in": {}, "move": {}})
+            row = acc.setdefault((t["ci"], t["kinds"], t["e"], t["b"], t["lab"], t["u"]), {"in": {}, "move": {}})
             for z in t["zs"][:-1]:
                 row["in"][z] = 0
             continue
@@ -321,7 +402,7 @@ def path_weight_check(cases, rule, mats, trans):
         w = 1
         for zi in t["zs"][0]:
             w *= wz[zi]
-        k = (t["ci"], t["kinds"], t["e"], t["b"], t["u"])
+        k = (t["ci"], t["kinds"], t["e"], t["b"], t["lab"], t["u"])
         row = acc.setdefault(k, {"in": {}, "move": {}})
         row["in"][t["zs"][0]] = w if t["ok"] else 0
         if t["ok"] and t["rc"] == "low" and t["rec"][0] != t["u"]:
@@ -329,7 +410,7 @@ def path_weight_check(cases, rule, mats, trans):
             p0 = t["pis"][idx_cells(t["u"], c["M"])]
             row["move"][t["rec"][2]] = row["move"].get(t["rec"][2], 0) + Fraction(w) * min(Fraction(1), Fraction(pu, p0))
     n = 0
-    for (ci, kinds, e, b, u), row in acc.items():
+    for (ci, kinds, e, b, lab, u), row in acc.items():
         c = cases[ci - 1]
         wtot = sum(w for _, w in c["alpha"]) ** c["d"]
         if rule == "impl" and c["maxdraws"] < 2:
@@ -337,7 +418,7 @@ def path_weight_check(cases, rule, mats, trans):
         if len(row["in"]) != len(c["alpha"]) ** c["d"]:
             return n, f"case {ci} u={u}: {len(row['in'])} first draws enumerated, alphabet has {len(c['alpha']) ** c['d']}"
         norm = sum(row["in"].values()) if rule == "impl" else wtot
-        pis, mat = mats[(ci, kinds, e, b)]
+        pis, mat = mats[(ci, kinds, e, b, lab)]
         i = idx_cells(u, c["M"])
         den, nums = mat[i]
         for j in range(len(nums)):
@@ -806,12 +887,10 @@ def _main(ck, pools):
         with open(ck.args.replay) as f:
             rp = json.load(f)
         pl = rp["replay"]
-        if rp["key"] in ("replay:sweep", "replay:hardwall-rule"):
+        if rp["key"] in ("replay:sweep", "replay:multi-sweep", "run:labels-changed", "replay:hardwall-rule", "entry:parallel_mcmc:rwm"):
             case = pl["case"]
             case["alpha"] = [tuple(a) for a in case["alpha"]]
             ts = pl.get("transitions") or [pl["transition"]]
-            for t in ts:
-                t["rec"] = (tuple(t["rec"][0]), t["rec"][1], t["rec"][2])
             rep = SweepReplayer(np, mcmc, modes_mod)
             m = rep.sweep(case, tuple(ts[0]["kinds"]), tuple(ts[0]["e"]), ts[0]["pis"], ts[0]["b"], ts)
             print("replayed sweep:", m or "reproduces the specification's successor")
@@ -884,8 +963,8 @@ def _main(ck, pools):
     sims = sim_results()
     pp.shutdown()
     dbg(ck, "kernel TLC runs + simulations done")
-    mats_i, tr_i = load_kernel_dump(r_int)
-    mats_c, tr_c = load_kernel_dump(r_imp)
+    mats_i, tr_i = load_kernel_dump(r_int, cases)
+    mats_c, tr_c = load_kernel_dump(r_imp, cases)
     for r in (r_int, r_imp, r_none, r_some):
         r.cleanup()
     # the spec's own counterexample to detailed balance under the code-shaped rule
@@ -918,7 +997,7 @@ def _main(ck, pools):
             raise tlc.TLCFailure("the two rules disagree on a behaviour without out-of-cube draw")
     int_only = [t for k, t in ki.items() if k not in kc]     # OutReject behaviours
     imp_only = [t for k, t in kc.items() if k not in ki]     # behaviours with a redraw
-    if any(t["ok"] for t in int_only) or any(len(t["zs"]) < 2 for t in imp_only):
+    if any(all(sp["ok"] for sp in t["sweeps"]) for t in int_only) or any(all(len(sp["zs"]) < 2 for sp in t["sweeps"]) for t in imp_only):
         raise tlc.TLCFailure("unexpected partition of behaviours between the two hard-wall rules")
     rng = random.Random(ck.seed * 31 + 5)
 
@@ -926,8 +1005,9 @@ def _main(ck, pools):
         return rep.sweep(cases[t["ci"] - 1], t["kinds"], t["e"], t["pis"], t["b"], [t])
 
     # ---- which hard-wall rule does the code follow?  (discriminating behaviours, one walker per call)
-    probe_i = rng.sample(int_only, min(len(int_only), 400 if quick else 3000))
-    probe_c = rng.sample(imp_only, min(len(imp_only), 400 if quick else 3000))
+    single = lambda L: [t for t in L if len(t["sweeps"]) == 1]  # noqa: E731  (one sweep: nothing but the hard-wall rule differs)
+    probe_i = rng.sample(single(int_only), min(len(single(int_only)), 400 if quick else 3000))
+    probe_c = rng.sample(single(imp_only), min(len(single(imp_only)), 400 if quick else 3000))
     mis_i = [(t, m) for t in probe_i for m in [one(t)] if m]
     mis_c = [(t, m) for t in probe_c for m in [one(t)] if m]
     if not mis_c and len(mis_i) == len(probe_i):
@@ -945,7 +1025,12 @@ def _main(ck, pools):
     groups = {}
     for t in todo:
         groups.setdefault((t["ci"], t["kinds"], t["e"], t["b"]), []).append(t)
-    replayed = entry_n = entry_folded = 0
+    replayed = entry_n = entry_folded = multi_n = crossers = 0
+
+    def raw_of(t, sp):
+        g = cases[t["ci"] - 1].get("gains", [1])[t["lab"] - 1]
+        return tuple(c + 2 * g * z for c, z in zip(sp["u"], sp["zs"][-1]))
+
     nontrivial = set()
     for gk in sorted(groups):
         L = groups[gk]
@@ -956,29 +1041,39 @@ def _main(ck, pools):
             replayed += len(chunk)
             if m:
                 culprit = next(((t, mm) for t in chunk for mm in [one(t)] if mm), (chunk[0], m))
-                ck.violation("replay:sweep", f"one sweep of RWMRunner.run() differs from Kernel.tla: {culprit[1]}",
+                nsw = len(chunk[0]["sweeps"])
+                key = "run:labels-changed" if "cluster labels changed" in culprit[1] else "replay:sweep" if nsw == 1 else "replay:multi-sweep"
+                ck.violation(key, f"{nsw} sweep(s) of one RWMRunner.run() call differ from Kernel.tla: {culprit[1]}",
                              {"transitions": chunk, "case": cases[gk[0] - 1], "joint_message": m})
-            elif any(kd != "hard" for kd in gk[1]) or (i // 3) % 4 == 0:
+            elif len(chunk[0]["sweeps"]) == 1 and (any(kd != "hard" for kd in gk[1]) or (i // 3) % 4 == 0):
                 # the same behaviours through the public entry point (boundary arguments travel through parallel_mcmc)
                 m = rep.sweep(cases[gk[0] - 1], gk[1], gk[2], chunk[0]["pis"], gk[3], chunk, entry=True)
                 entry_n += len(chunk)
-                if any(kd != "hard" for kd in gk[1]) and any(tuple(c + 2 * z for c, z in zip(t["u"], t["zs"][-1])) != t["fol"] for t in chunk):
+                if any(kd != "hard" for kd in gk[1]) and any(raw_of(t, t) != t["fol"] for t in chunk):
                     entry_folded += 1
                 if m:
                     ck.violation("entry:parallel_mcmc:rwm", f"one sweep through tempest.mcmc.parallel_mcmc(sample='rwm', periodic={[j for j, kd in enumerate(gk[1]) if kd == 'periodic']}, "
                                  f"reflective={[j for j, kd in enumerate(gk[1]) if kd == 'reflective']}) differs from Kernel.tla although RWMRunner.run() constructed directly "
                                  f"reproduces it: {m}", {"transitions": chunk, "case": cases[gk[0] - 1]})
+        Mg = cases[gk[0] - 1]["M"]
         for t in L:
-            raw = tuple(c + 2 * z for c, z in zip(t["u"], t["zs"][-1]))
-            if len(t["zs"]) > 1 or not t["ok"] or raw != t["fol"] or (t["ok"] and t["pis"][idx_cells(t["fol"], cases[gk[0] - 1]["M"])] != t["pis"][idx_cells(t["u"], cases[gk[0] - 1]["M"])]):
-                nontrivial.add(tkey(t))
+            for sp in t["sweeps"]:
+                if len(sp["zs"]) > 1 or not sp["ok"] or raw_of(t, sp) != sp["fol"] or t["pis"][idx_cells(sp["fol"], Mg)] != t["pis"][idx_cells(sp["u"], Mg)]:
+                    nontrivial.add(tkey(t))
+            if len(t["sweeps"]) > 1:
+                multi_n += 1
+                K = len(cases[gk[0] - 1].get("gains", [1]))
+                # a walker that sits in the OTHER mode's part of the cube when a later sweep starts (label unchanged)
+                if any(min(K - 1, (sp["u"][0] * K) // (2 * Mg)) + 1 != t["lab"] for sp in t["sweeps"][1:]):
+                    crossers += 1
     for t in (common[:1] + imp_only[:1] + int_only[:1]):
         ck.sample({"lattice_transition": {k: t[k] for k in ("ci", "kinds", "e", "b", "u", "zs", "rc", "fol", "ok", "acc", "rec")}})
 
     dbg(ck, "lattice replays done")
     # ---- verdict on the code = TLC's verdict on the rule the code follows
     mats_f = mats_i if follows == "intended" else mats_c
-    flat = next(((k, v) for k, v in mats_f.items() if cases[k[0] - 1]["M"] == 8 and cases[k[0] - 1]["d"] == 1 and k[1] == ("hard",) and not any(k[2])), None)
+    flat = next(((k, v) for k, v in mats_f.items() if cases[k[0] - 1]["M"] == 8 and cases[k[0] - 1]["d"] == 1 and k[1] == ("hard",) and not any(k[2])
+                 and cases[k[0] - 1].get("gains", [1]) == [1]), None)
     quant = None
     if flat:
         (fk, (_, fmat)) = flat
@@ -998,7 +1093,7 @@ def _main(ck, pools):
                      f"{cex}. Stationary law on the flat M=8 lattice: {quant and quant['stationary_float']} instead of 0.125 each"
                      + ("; confirmed by simulating the real runner" if conf else ""),
                      {"tlc_counterexample": cex, "quantification": quant, "continuous_simulation_rwm_hard": sims.get("rwm:hard"), "simulation_confirms": conf})
-    ex_a = dict(rule_followed_by_code=follows, lattice_transitions_through_parallel_mcmc=entry_n, entry_sweeps_with_folded_proposal=entry_folded, lattice_rows_cross_checked=rows_i + rows_c, accept_masks_seen=sorted(str(m) for m in rep.masks if m),
+    ex_a = dict(rule_followed_by_code=follows, multi_sweep_behaviours_replayed=multi_n, multi_sweep_walkers_in_other_modes_region=crossers, lattice_transitions_through_parallel_mcmc=entry_n, entry_sweeps_with_folded_proposal=entry_folded, lattice_rows_cross_checked=rows_i + rows_c, accept_masks_seen=sorted(str(m) for m in rep.masks if m),
                 probes={"intended_out_reject": len(probe_i), "impl_redraw": len(probe_c)}, run_calls=rep.calls, hardwall_quantification=quant)
 
     # ================================================================= (b) tpCN identity
